@@ -60,7 +60,29 @@ def run_sequence(seed, k, res):
     npt = int(rng.integers(n + 1, 2 * n + 2))
     useh = rng.random() < 0.4
     lam = 0.5
-    h = (lambda x: lam * float(np.abs(x).sum())) if useh else None
+    # own stream for the two variations below (the sequences themselves stay what they were): the regulariser takes extra arguments
+    # (argsh), and / or the model lives in scaled variables (scaling_changes) while h is a function of the user's variables
+    g2 = engine.rng_for(seed, NUM, k, 6)
+    argsh = ()
+    scaling = None
+    if useh and g2.random() < 0.5:
+        argsh = (float(g2.uniform(0.5, 3.0)), ("token", 3))
+    if useh and g2.random() < 0.4:
+        scaling = (g2.normal(size=n) * 3.0, 10.0 ** g2.uniform(-1, 1, size=n))
+
+    def h_model(x, *a):
+        # what the Model is given: requires exactly the extra arguments it was constructed with
+        if tuple(a) != tuple(argsh):
+            raise AssertionError("h received extra arguments %r instead of %r" % (a, argsh))
+        return (a[0] if a else 1.0) * lam * float(np.abs(x).sum())
+
+    def h(x):
+        # the shadow's h of a stored (model-coordinate) position
+        xu_ = x if scaling is None else scaling[0] + x * scaling[1]
+        return (argsh[0] if argsh else 1.0) * lam * float(np.abs(xu_).sum())
+    if useh:
+        st["sequences_with_argsh"] = st.get("sequences_with_argsh", 0) + int(bool(argsh))
+        st["sequences_with_scaling"] = st.get("sequences_with_scaling", 0) + int(scaling is not None)
     pbad = float(gen.pick(rng, [0.0, 0.05, 0.15, 0.4]))
 
     def rv():
@@ -76,7 +98,7 @@ def run_sequence(seed, k, res):
     x0 = rng.normal(size=n) * 5
     r0 = rng.normal(size=m)
     xl, xu = -1e20 * np.ones(n), 1e20 * np.ones(n)
-    M = Model(npt, x0.copy(), r0.copy(), xl, xu, [], 1, h=h, do_logging=False)
+    M = Model(npt, x0.copy(), r0.copy(), xl, xu, [], 1, h=(h_model if useh else None), argsh=argsh, do_logging=False, scaling_changes=scaling)
     sh = [dict(x=x0.copy(), samples=[r0.copy()], ev=1)]
     stale = False
     saved = None
